@@ -68,6 +68,7 @@ fn register_instance<const S: usize, const P: usize, const KH: usize, const CERT
         assert!(r.is_err(), "response that does not fit must report failure");
 
     }
+    kani::cover!(true, "instance reached its verdict");
 }
 
 fn authenticate_instance<const S: usize, const P: usize, const SIG: usize>() {
@@ -93,6 +94,7 @@ fn authenticate_instance<const S: usize, const P: usize, const SIG: usize>() {
         assert!(r.is_err(), "response that does not fit must report failure");
 
     }
+    kani::cover!(true, "instance reached its verdict");
 }
 
 fn version_instance<const S: usize, const P: usize>() {
@@ -110,6 +112,7 @@ fn version_instance<const S: usize, const P: usize>() {
         assert!(r.is_err());
 
     }
+    kani::cover!(true, "instance reached its verdict");
 }
 
 macro_rules! reg {
